@@ -46,7 +46,7 @@ Theorem C17_atomic_at_every_crash_point : forall c init outs p o,
   good c init outs -> prefix_of p (plan c init outs) -> In o outs ->
   visible (exec init p) (o_name o) = visible init (o_name o) \/
   visible (exec init p) (o_name o) = Some (new_bytes o).
-Proof. intros c init outs p o G. exact (atomic c init outs G p o). Qed.
+Proof. intros c init outs p o G. exact (atomic (reached c outs) init outs (good_reached c init outs G) p o). Qed.
 Print Assumptions C17_atomic_at_every_crash_point.
 
 (* ---- confinement: a name that is neither an output, nor one of this run's
@@ -55,17 +55,17 @@ Print Assumptions C17_atomic_at_every_crash_point.
 Theorem C17_frame : forall c init outs p n,
   good c init outs -> prefix_of p (plan c init outs) ->
   ~ In n (names outs) -> ~ In n (temps outs) ->
-  ~ In n (victims c (exec init (write_ops (c_fd c) outs))) ->
+  ~ In n (removed c init outs) ->
   lookup n (dir (exec init p)) = lookup n (dir init) /\ visible (exec init p) n = visible init n.
-Proof. intros c init outs p n G. exact (frame c init outs G p n). Qed.
+Proof. intros c init outs p n G. exact (frame (reached c outs) init outs (good_reached c init outs G) p n). Qed.
 Print Assumptions C17_frame.
 
 (* a file selected by Clean is, at every crash point, complete and unchanged or gone *)
 Theorem C17_victim_old_or_gone : forall c init outs p n,
   good c init outs -> prefix_of p (plan c init outs) ->
-  In n (victims c (exec init (write_ops (c_fd c) outs))) ->
+  In n (removed c init outs) ->
   visible (exec init p) n = visible init n \/ visible (exec init p) n = None.
-Proof. intros c init outs p n G. exact (victim_old_or_gone c init outs G p n). Qed.
+Proof. intros c init outs p n G. exact (victim_old_or_gone (reached c outs) init outs (good_reached c init outs G) p n). Qed.
 Print Assumptions C17_victim_old_or_gone.
 
 (* ... and it is gone only once it is superseded: if at some crash point a selected file
@@ -73,9 +73,9 @@ Print Assumptions C17_victim_old_or_gone.
    after the write loop) *)
 Theorem C17_removed_only_when_superseded : forall c init outs p n o,
   good c init outs -> prefix_of p (plan c init outs) ->
-  In n (victims c (exec init (write_ops (c_fd c) outs))) -> lookup n (dir (exec init p)) = None ->
+  In n (removed c init outs) -> lookup n (dir (exec init p)) = None ->
   In o outs -> visible (exec init p) (o_name o) = Some (new_bytes o).
-Proof. exact removed_only_when_superseded. Qed.
+Proof. intros c init outs p n o G. exact (removed_only_when_superseded (reached c outs) init outs p n o (good_reached c init outs G)). Qed.
 Print Assumptions C17_removed_only_when_superseded.
 
 (* no file appears under a name that is not an output or a temporary *)
@@ -83,7 +83,7 @@ Theorem C17_only_outputs_and_temps_appear : forall c init outs p n,
   good c init outs -> prefix_of p (plan c init outs) ->
   lookup n (dir (exec init p)) <> None -> lookup n (dir init) = None ->
   In n (names outs) \/ In n (temps outs).
-Proof. intros c init outs p n G. exact (new_names_are_outputs_or_temps c init outs G p n). Qed.
+Proof. intros c init outs p n G. exact (new_names_are_outputs_or_temps (reached c outs) init outs (good_reached c init outs G) p n). Qed.
 Print Assumptions C17_only_outputs_and_temps_appear.
 
 (* ---- no pre-existing inode is ever written: whatever name (hard link) or open
@@ -91,16 +91,16 @@ Print Assumptions C17_only_outputs_and_temps_appear.
 Theorem C17_old_inodes_keep_their_bytes : forall c init outs p j,
   good c init outs -> prefix_of p (plan c init outs) -> j < next init ->
   data (exec init p) j = data init j.
-Proof. intros c init outs p j G. exact (old_inodes_keep_bytes c init outs G p j). Qed.
+Proof. intros c init outs p j G. exact (old_inodes_keep_bytes (reached c outs) init outs (good_reached c init outs G) p j). Qed.
 Print Assumptions C17_old_inodes_keep_their_bytes.
 
 Theorem C17_hard_link_keeps_old_output : forall c init outs p o l i,
   good c init outs -> prefix_of p (plan c init outs) -> In o outs ->
   lookup (o_name o) (dir init) = Some i -> lookup l (dir init) = Some i ->
   ~ In l (names outs) -> ~ In l (temps outs) ->
-  ~ In l (victims c (exec init (write_ops (c_fd c) outs))) ->
+  ~ In l (removed c init outs) ->
   visible (exec init p) l = visible init (o_name o).
-Proof. intros c init outs p o l i G. exact (hard_link_keeps_old c init outs G p o l i). Qed.
+Proof. intros c init outs p o l i G. exact (hard_link_keeps_old (reached c outs) init outs (good_reached c init outs G) p o l i). Qed.
 Print Assumptions C17_hard_link_keeps_old_output.
 
 (* ---- concurrent reader: the inode a reader obtained by opening any name other
@@ -109,7 +109,7 @@ Theorem C17_reader_stability : forall c init outs p r n i,
   good c init outs -> prefix_of (p ++ r)%list (plan c init outs) ->
   ~ In n (temps outs) -> lookup n (dir (exec init p)) = Some i ->
   data (exec init (p ++ r)) i = data (exec init p) i.
-Proof. intros c init outs p r n i G. exact (reader_stability c init outs G p r n i). Qed.
+Proof. intros c init outs p r n i G. exact (reader_stability (reached c outs) init outs (good_reached c init outs G) p r n i). Qed.
 Print Assumptions C17_reader_stability.
 
 (* ---- normal termination: every output holds its new content, no temporary
@@ -120,18 +120,18 @@ Theorem C17_no_temp_left : forall c init outs,
   let s := exec init (plan c init outs) in
   (forall o, In o outs -> visible s (o_name o) = Some (new_bytes o)) /\
   (forall t, In t (temps outs) -> lookup t (dir s) = None) /\
-  (forall n, In n (victims c (exec init (write_ops (c_fd c) outs))) -> lookup n (dir s) = None) /\
+  (forall n, In n (removed c init outs) -> lookup n (dir s) = None) /\
   (forall n, ~ In n (names outs) -> ~ In n (temps outs) ->
-             ~ In n (victims c (exec init (write_ops (c_fd c) outs))) ->
+             ~ In n (removed c init outs) ->
              lookup n (dir s) = lookup n (dir init) /\ visible s n = visible init n) /\
   nofds s.
-Proof. intros c init outs G. exact (final_state c init outs G). Qed.
+Proof. intros c init outs G. exact (final_state (reached c outs) init outs (good_reached c init outs G)). Qed.
 Print Assumptions C17_no_temp_left.
 
 (* the model's run never hits a failing system call *)
 Theorem C17_plan_never_fails : forall c init outs,
   good c init outs -> keys_nodup (dir init) -> all_ok init (plan c init outs) = true.
-Proof. exact plan_all_ok. Qed.
+Proof. intros c init outs G K. exact (plan_all_ok (reached c outs) init outs (good_reached c init outs G) K). Qed.
 Print Assumptions C17_plan_never_fails.
 
 (* ---- the all-in-one cleanup: which files are selected, stated on the
@@ -139,8 +139,8 @@ Print Assumptions C17_plan_never_fails.
    does not say the removed files are superseded (see below) *)
 Theorem C17_victims_are_the_selected_files : forall c init outs n,
   good c init outs -> ~ In n (names outs) ->
-  (In n (victims c (exec init (write_ops (c_fd c) outs))) <-> victim_spec c init n = true).
-Proof. intros c init outs n G. exact (victims_char c init outs G n). Qed.
+  (In n (removed c init outs) <-> victim_spec (reached c outs) init n = true).
+Proof. intros c init outs n G. exact (victims_char (reached c outs) init outs (good_reached c init outs G) n). Qed.
 Print Assumptions C17_victims_are_the_selected_files.
 
 (* selected = the run is an all-in-one run, the name matches *.shoot<cmd>*.go, the
@@ -163,9 +163,9 @@ Theorem C17_files_without_the_header_are_never_removed : forall c init outs p n 
   lookup n (dir (exec init p)) = lookup n (dir init) /\ visible (exec init p) n = Some b.
 Proof.
   intros c init outs p n b G Hp Hn V Hg.
-  destruct (not_selected_untouched c init outs p n G Hp Hn) as [L V'].
+  destruct (not_selected_untouched (reached c outs) init outs p n (good_reached c init outs G) Hp Hn) as [L V'].
   - unfold visible in V. destruct (lookup n (dir init)); congruence.
-  - exact (hand_written_not_selected c init n b V Hg).
+  - exact (hand_written_not_selected (reached c outs) init n b V Hg).
   - split; [exact L|congruence].
 Qed.
 Print Assumptions C17_files_without_the_header_are_never_removed.
@@ -193,9 +193,9 @@ Print Assumptions C17_removes_only_superseded_partial.
    the run is not an all-in-one run *)
 Theorem C17_not_selected_untouched : forall c init outs p n,
   good c init outs -> prefix_of p (plan c init outs) ->
-  ~ In n (names outs) -> lookup n (dir init) <> None -> victim_spec c init n = false ->
+  ~ In n (names outs) -> lookup n (dir init) <> None -> victim_spec (reached c outs) init n = false ->
   lookup n (dir (exec init p)) = lookup n (dir init) /\ visible (exec init p) n = visible init n.
-Proof. exact not_selected_untouched. Qed.
+Proof. intros c init outs p n G. exact (not_selected_untouched (reached c outs) init outs p n (good_reached c init outs G)). Qed.
 Print Assumptions C17_not_selected_untouched.
 
 (* ---- names: what fileName produces matches *.shoot<cmd>*.go, for every source
@@ -274,11 +274,11 @@ Theorem C17_after_a_failing_call : forall c init outs k,
   good c init outs ->
   let s := exec init (faulted (plan c init outs) k) in
   (forall o, In o outs -> visible s (o_name o) = visible init (o_name o) \/ visible s (o_name o) = Some (new_bytes o)) /\
-  (forall n, ~ In n (names outs) -> ~ In n (temps outs) -> ~ In n (victims c (exec init (write_ops (c_fd c) outs))) ->
+  (forall n, ~ In n (names outs) -> ~ In n (temps outs) -> ~ In n (removed c init outs) ->
      lookup n (dir s) = lookup n (dir init) /\ visible s n = visible init n) /\
-  (forall n, In n (victims c (exec init (write_ops (c_fd c) outs))) -> visible s n = visible init n \/ visible s n = None) /\
+  (forall n, In n (removed c init outs) -> visible s n = visible init n \/ visible s n = None) /\
   (forall j, j < next init -> data s j = data init j).
-Proof. intros c init outs k G. exact (faulted_invariants c init outs G k). Qed.
+Proof. intros c init outs k G. exact (faulted_invariants (reached c outs) init outs (good_reached c init outs G) k). Qed.
 Print Assumptions C17_after_a_failing_call.
 
 (* and no temporary file is left, unless the failing call is the rename itself (the code does
@@ -288,15 +288,23 @@ Theorem C17_no_temp_left_unless_the_rename_failed : forall c init outs k x t,
   good c init outs ->
   nth_error (plan c init outs) k = Some x -> can_fail x = true -> is_rename x = false ->
   In t (temps outs) -> lookup t (dir (exec init (faulted (plan c init outs) k))) = None.
-Proof. intros c init outs k x t G. exact (faulted_no_temp_left c init outs G k x t). Qed.
+Proof. intros c init outs k x t G. exact (faulted_no_temp_left (reached c outs) init outs (good_reached c init outs G) k x t). Qed.
 Print Assumptions C17_no_temp_left_unless_the_rename_failed.
+
+(* ---- nothing generated: main prints its warning and returns BEFORE g.Clean(); no system call is
+   issued and no file is selected, whatever the mode and whatever stale outputs the directory holds
+   (the earlier model cleaned here; found by the translation tie coq/Bridge/WriteProtoBridge.v) *)
+Theorem C17_nothing_generated_nothing_touched : forall c init,
+  plan c init [] = [] /\ removed c init [] = [].
+Proof. intros c init. split; [apply plan_nothing_generated|apply removed_nothing_generated]. Qed.
+Print Assumptions C17_nothing_generated_nothing_touched.
 
 (* ---- main ranges over a Go map: the order in which the outputs are written does
    not influence what the directory shows after the run *)
 Theorem C17_output_order_is_irrelevant : forall c init outs outs',
   Permutation outs outs' -> good c init outs -> good c init outs' ->
   forall n, visible (exec init (plan c init outs)) n = visible (exec init (plan c init outs')) n.
-Proof. exact order_independent. Qed.
+Proof. exact order_independent_plan. Qed.
 Print Assumptions C17_output_order_is_irrelevant.
 
 (* ---- histories: what a killed run leaves behind (descriptors gone, directory as it
@@ -419,6 +427,14 @@ Proof.
     + intros o [<-|[]]. reflexivity.
   - vm_compute. repeat split.
 Qed.
+
+(* `shoot new -type=*` in the example directory when the package has no eligible type: the stale
+   per-type file, which an all-in-one run that generates something removes, stays *)
+Example C17_example_nothing_generated :
+  plan ex_cfg ex_init [] = [] /\
+  visible (exec ex_init (plan ex_cfg ex_init [])) "a.shootnew.foo.go" = visible ex_init "a.shootnew.foo.go" /\
+  In "a.shootnew.foo.go" (removed ex_cfg ex_init [ex_out]).
+Proof. vm_compute. repeat split. now left. Qed.
 
 (* the example run with a failing second write (no space left): Close, Remove(temp); the old file,
    the hard link and the stale file are as before, no temporary is left *)
@@ -569,7 +585,7 @@ Theorem C17_refuted_K_clean_not_superseded :
   exists c init outs n b,
     c_supfix c = false /\ good c init outs /\
     visible init n = Some b /\ superseded c b = false /\
-    In n (victims c (exec init (write_ops (c_fd c) outs))) /\
+    In n (removed c init outs) /\
     visible (exec init (plan c init outs)) n = None.
 Proof.
   exists ns_cfg, ns_init, [ns_out], "a.shootmap.orderpo.go", ns_old.
